@@ -387,6 +387,13 @@ def c_line_search(it, clo, b, site):
                props=("REQ", "C04", "SAFE"))
     run.oblige("linesearch.line_search::call::requires::sf_is_callers", b["sf"] is ctx.sf, props=("REQ",),
                backend="structural")
+    # C12: the line-search constants and caps reach the line search unmodified
+    kwa = ctx.kwargs
+    for nm, par in (("ftol", "ftol_linesearch"), ("gtol", "gtol_linesearch"), ("xtol", "xtol_linesearch"),
+                    ("max_steplength_user", "max_steplength")):
+        run.oblige(f"main.minimize_lbfgsb::dataflow::{par}_reaches_line_search_unmodified",
+                   b[nm] is kwa[par] or (isinstance(b[nm], Sym) and isinstance(kwa[par], Sym) and z3.eq(b[nm].e, kwa[par].e)),
+                   props=("C12",), backend="structural")
     sf = b["sf"]
     ls_effect_on_sf(run, sf, ctx, b["max_iter"])
     if dom.user_may_raise and run.choose("line_search:user_raises", 2) == 1:
